@@ -205,8 +205,11 @@ def sharing(ctx):
         cols = puts[0].args[1][2]
         rm = [e for e in calls(fa, method='remove') if e.under(guard)]
         Ls = [fa.loops[e.loops[-1]].iter for e in rm if e.loops]
-        ctx.check(bool(Ls) and Ls[0] in (T.lst([C('chrom'), C('start'), C('end')]),), R, 'per-cell-columns.excluded', ctx.where(fa, rm[0] if rm else None),
-                  found=[T.show(x) for x in Ls], expected="the three shared columns ['chrom', 'start', 'end'] are removed from the per-cell column list")
+        removed = {arg(e, 0)[1] for e in rm if arg(e, 0) is not None and arg(e, 0)[0] == 'c'}      # written out / unrolled
+        ok_rm = (bool(Ls) and Ls[0] in (T.lst([C('chrom'), C('start'), C('end')]),)) or removed == {'chrom', 'start', 'end'}
+        ctx.check(ok_rm, R, 'per-cell-columns.excluded', ctx.where(fa, rm[0] if rm else None),
+                  found=[T.show(x) for x in Ls] or sorted(removed),
+                  expected="the three shared columns ['chrom', 'start', 'end'] are removed from the per-cell column list")
 
 
 def magic(ctx):
